@@ -116,3 +116,28 @@ Theorem C13_partition_model_exact_no_rounding :
   api_join (with_op c "=") = Some oeq -> partition_spec (with_op c ">=") oge ogt oeq = true.
 Proof. exact C13_partition_model_exact. Qed.
 Print Assumptions C13_partition_model_exact_no_rounding.
+
+(* tie of candidate generation to the source: index/position_index.py (build) and
+   filter/position_filter.py (find_candidates), as REGENERATED on this run (Gen/IndexGen.v), compute
+   for EVERY indexed row c and probe Y exactly the pairwise model's verdict pos_cand -- the
+   inverted index over all rows, the eager overlap-threshold cache, the clamping of the size
+   window to [min_length, max_length] and the early exit on an empty index are all immaterial *)
+From SSJ Require Import FilterUtilsGen Filters IndexGen IndexPyFacts IndexBuildFacts IndexProbeFacts IndexRefine.
+Theorem position_index_code_refines_model :
+  forall (p : fparams) (attr ordering : pyval) (tokenize : pyval -> pyval) (rows : list pyval)
+         (ordered : list (list Z)) (ce ct : bool),
+  Forall2 (row_ok attr ordering tokenize) rows ordered ->
+  (forall x, In x ordered -> exists kx, g_pl p (len x) = PInt kx) ->
+  forall (Y : list Z) (lb ub k : Z),
+  g_lb p (len Y) = PInt lb -> g_ub p (len Y) = PInt ub -> g_pl p (len Y) = PInt k ->
+  (forall s, 0 <= s -> lb <= s <= ub -> num_of (g_ot p s (len Y)) <> None) ->
+  exists (index size_cache : pyval) (mn mx : Z) (ret cands : pyval),
+    position_index_build (PList rows) attr (PStr (fm p)) (ft p) ordering (PBool ce) (PBool ct)
+                         (PInt (fq p)) tokenize
+    = PTuple [index; size_cache; PInt mn; PInt mx; ret] /\
+    position_filter_find_candidates (PStr (fm p)) (ft p) (pints Y) index size_cache (PInt mn) (PInt mx)
+                                    (PInt (fq p)) = cands /\
+    forall c : nat, (c < List.length ordered)%nat ->
+      (0 < dict_val cands (Z.of_nat c) <-> exists v, pos_cand p (nth c ordered []) Y = Some v /\ 0 < v).
+Proof. exact position_candidate_positive. Qed.
+Print Assumptions position_index_code_refines_model.
